@@ -20,6 +20,11 @@ func expectedHits() []string {
 		"fill-down", "fill-down:-a", "fill-down:--all", "fill-down:--only-if-absent",
 		"step", "step:-g", "step:-o", "step:ewma-default-d", "step:-f x,y", "merge-fields", "merge-fields:-f", "merge-fields:-r", "merge-fields:-c", "merge-fields:-k", "merge-fields:-i",
 		"dsl:array", "dsl:map", "group-text:comma", "group-text:1-vs-1.0", "group-text:(empty)", "group-text:(absent)"}
+	l = append(l, "pct-grid:direct", "pct-grid:stats1", "pct-grid:merge-fields", "pct-grid:dsl",
+		"joiner-verb:stats1", "joiner-verb:step", "joiner-verb:fraction", "joiner-verb:top", "joiner-verb:count-distinct -u")
+	for _, j := range joiners() {
+		l = append(l, "joiner:"+joinerName(j))
+	}
 	for _, a := range accumulatorNames() {
 		l = append(l, "acc:"+a)
 	}
